@@ -714,6 +714,15 @@ func (o *operation) reportError(err error) {
 	httpMergeTrailers(o.writer.Header(), trailers)
 }
 
+// responseHeader returns the response headers while a response message is being
+// processed, which happens with the responseWriter's lock held.
+func (o *operation) responseHeader() http.Header {
+	if rw, ok := o.writer.(*responseWriter); ok {
+		return rw.header()
+	}
+	return o.writer.Header()
+}
+
 func (o *operation) readRequestMessage(rw *responseWriter, reader io.Reader, msg *message) error {
 	msgLen := -1
 	compressed := o.client.reqCompression != nil
@@ -726,7 +735,7 @@ func (o *operation) readRequestMessage(rw *responseWriter, reader io.Reader, msg
 		msgLen, compressed, err = o.processRequestEnvelope(envBuf)
 		if err != nil {
 			if rw != nil {
-				rw.reportError(err)
+				rw.reportReadError(err)
 			}
 			return err
 		}
@@ -738,7 +747,7 @@ func (o *operation) readRequestMessage(rw *responseWriter, reader io.Reader, msg
 		limit, grow, makeError, limitErr := o.determineReadLimit()
 		if limitErr != nil {
 			if rw != nil {
-				rw.reportError(limitErr)
+				rw.reportReadError(limitErr)
 			}
 			return limitErr
 		}
@@ -956,13 +965,13 @@ func (r *envelopingReader) prepareNext() error {
 		env, err = r.rw.op.clientEnveloper.decodeEnvelope(envBytes)
 		if err != nil {
 			err = malformedRequestError(err)
-			r.rw.reportError(err)
+			r.rw.reportReadError(err)
 			return err
 		}
 		r.messages++
 		if r.messages > 1 && r.rw.op.singleRequestMessageOnly() {
 			err = malformedRequestError(errTooManyRequestMessages)
-			r.rw.reportError(err)
+			r.rw.reportReadError(err)
 			return err
 		}
 		r.current = &exactLengthReader{r: r.r, remaining: int64(env.length)}
@@ -1041,12 +1050,12 @@ func (r *transformingReader) Read(data []byte) (n int, err error) {
 		if r.consumedFirst && r.rw.op.singleRequestMessageOnly() {
 			err := malformedRequestError(errTooManyRequestMessages)
 			r.err = err
-			r.rw.reportError(err)
+			r.rw.reportReadError(err)
 			return 0, err
 		}
 		if err := r.prepareMessage(); err != nil {
 			r.err = err
-			r.rw.reportError(err)
+			r.rw.reportReadError(err)
 			return 0, io.EOF
 		}
 	}
@@ -1092,6 +1101,11 @@ func (r *transformingReader) prepareMessage() error {
 // When the headers are written, the actual transformation that is
 // needed is determined and a writer decorator created.
 type responseWriter struct {
+	// A handler may read the request body from one goroutine and write the response
+	// from another, and a failure while reading is reported through this writer. So
+	// mu guards everything below: it is held by the exported methods, by close and
+	// by reportReadError, which are the entry points. Everything else expects it held.
+	mu       sync.Mutex
 	op       *operation
 	delegate http.ResponseWriter
 	flusher  http.Flusher
@@ -1116,6 +1130,12 @@ type responseWriter struct {
 }
 
 func (w *responseWriter) Header() http.Header {
+	w.mu.Lock()
+	defer w.mu.Unlock()
+	return w.header()
+}
+
+func (w *responseWriter) header() http.Header {
 	if w.endWritten {
 		// The outcome of the RPC has already been sent. Anything the handler sets
 		// from here on (in particular trailers carrying its own status) must not
@@ -1129,8 +1149,10 @@ func (w *responseWriter) Header() http.Header {
 }
 
 func (w *responseWriter) Write(data []byte) (n int, err error) {
+	w.mu.Lock()
+	defer w.mu.Unlock()
 	if !w.headersWritten {
-		w.WriteHeader(http.StatusOK)
+		w.writeHeader(http.StatusOK)
 	}
 	if w.err != nil {
 		return 0, w.err
@@ -1139,6 +1161,12 @@ func (w *responseWriter) Write(data []byte) (n int, err error) {
 }
 
 func (w *responseWriter) WriteHeader(statusCode int) {
+	w.mu.Lock()
+	defer w.mu.Unlock()
+	w.writeHeader(statusCode)
+}
+
+func (w *responseWriter) writeHeader(statusCode int) {
 	if w.headersWritten {
 		return
 	}
@@ -1151,30 +1179,30 @@ func (w *responseWriter) WriteHeader(statusCode int) {
 	}
 
 	var err error
-	w.contentLen, err = httpExtractContentLength(w.Header())
+	w.contentLen, err = httpExtractContentLength(w.header())
 	if err != nil {
 		w.reportError(err)
 		return
 	}
-	w.op.rspContentType = w.Header().Get("Content-Type")
-	respMeta, processBody, err := w.op.server.protocol.extractProtocolResponseHeaders(statusCode, w.Header())
+	w.op.rspContentType = w.header().Get("Content-Type")
+	respMeta, processBody, err := w.op.server.protocol.extractProtocolResponseHeaders(statusCode, w.header())
 	if err != nil {
 		w.reportError(err)
 		return
 	}
 	// snapshot trailer keys
-	trailerKeys := parseMultiHeader(w.Header().Values("Trailer"))
+	trailerKeys := parseMultiHeader(w.header().Values("Trailer"))
 	if len(trailerKeys) > 0 {
 		respMeta.pendingTrailerKeys = make(headerKeys, len(trailerKeys))
 		for _, k := range trailerKeys {
 			respMeta.pendingTrailerKeys.add(k)
 		}
-		w.Header().Del("Trailer")
+		w.header().Del("Trailer")
 	}
 
 	// Remove other headers that might mess up the next leg
-	w.Header().Del("Content-Encoding")
-	w.Header().Del("Accept-Encoding")
+	w.header().Del("Content-Encoding")
+	w.header().Del("Accept-Encoding")
 
 	w.respMeta = &respMeta
 	if respMeta.compression == CompressionIdentity {
@@ -1288,6 +1316,14 @@ func (w *responseWriter) flushMessage() {
 	w.flusher.Flush()
 }
 
+// reportReadError is reportError for the request side, which may run on another
+// goroutine than the one writing the response.
+func (w *responseWriter) reportReadError(err error) {
+	w.mu.Lock()
+	defer w.mu.Unlock()
+	w.reportError(err)
+}
+
 func (w *responseWriter) reportError(err error) {
 	var end responseEnd
 	if errors.As(err, &end.err) {
@@ -1334,12 +1370,12 @@ func (w *responseWriter) flushHeaders() {
 	cliRespMeta.codec = w.op.client.codec.Name()
 	cliRespMeta.compression = w.op.client.respCompression.Name()
 	cliRespMeta.acceptCompression = w.op.compressors.intersection(w.respMeta.acceptCompression)
-	statusCode := w.op.client.protocol.addProtocolResponseHeaders(cliRespMeta, w.Header())
+	statusCode := w.op.client.protocol.addProtocolResponseHeaders(cliRespMeta, w.header())
 	hasErr := w.respMeta.end != nil && w.respMeta.end.err != nil
 	// We only buffer full response for unary operations, so if we have an error,
 	// we ignore anything already written to the buffer.
 	if w.buf != nil && !hasErr {
-		w.Header().Set("Content-Length", strconv.Itoa(w.buf.Len()))
+		w.header().Set("Content-Length", strconv.Itoa(w.buf.Len()))
 	}
 	// TODO: At this point, if the server was gRPC but the client is not, we may have "Trailer"
 	//       headers reserving the use of various metadata keys in trailers. It would be
@@ -1362,9 +1398,11 @@ func (w *responseWriter) flushHeaders() {
 }
 
 func (w *responseWriter) close() {
+	w.mu.Lock()
+	defer w.mu.Unlock()
 	if !w.headersWritten {
 		// treat as empty successful response
-		w.WriteHeader(http.StatusOK)
+		w.writeHeader(http.StatusOK)
 	}
 	if w.w != nil {
 		_, _ = w.w.Write(nil) // trigger any final writes
@@ -1379,7 +1417,7 @@ func (w *responseWriter) close() {
 		return
 	}
 	// try to get end from trailers
-	trailer := httpExtractTrailers(w.Header(), w.respMeta.pendingTrailerKeys)
+	trailer := httpExtractTrailers(w.header(), w.respMeta.pendingTrailerKeys)
 	end, err := w.op.server.protocol.extractEndFromTrailers(w.op, trailer)
 	if err != nil {
 		w.reportError(err)
@@ -1393,13 +1431,13 @@ func (w *responseWriter) writeEnd(end *responseEnd, wasInHeaders bool) {
 	if len(trailers) > 0 {
 		// The outcome is carried by trailers. Remove any status the handler itself left
 		// among the trailers, so that it cannot override or mix with this one.
-		hdr := w.Header()
+		hdr := w.header()
 		for _, key := range [...]string{"Grpc-Status", "Grpc-Message", "Grpc-Status-Details-Bin"} {
 			delete(hdr, key)
 			delete(hdr, http.TrailerPrefix+key)
 		}
 	}
-	httpMergeTrailers(w.Header(), trailers)
+	httpMergeTrailers(w.header(), trailers)
 	w.endWritten = true
 }
 
@@ -1979,7 +2017,7 @@ func (h *hardLimitReader) Read(data []byte) (n int, err error) {
 	if h.read > h.limit && (err == nil || errors.Is(err, io.EOF)) {
 		err := h.error()
 		if h.rw != nil {
-			h.rw.reportError(err)
+			h.rw.reportReadError(err)
 		}
 		return n, err
 	}
@@ -2251,7 +2289,7 @@ func (m *message) encode(op *operation) error {
 	case m.isRequest && op.serverReqNeedsPrep:
 		data, err = op.serverPreparer.prepareMarshalledRequest(op, buf.Bytes(), m.msg, op.request.Header)
 	case !m.isRequest && op.clientRespNeedsPrep:
-		data, err = op.clientPreparer.prepareMarshalledResponse(op, buf.Bytes(), m.msg, op.writer.Header())
+		data, err = op.clientPreparer.prepareMarshalledResponse(op, buf.Bytes(), m.msg, op.responseHeader())
 	default:
 		var codec Codec
 		if m.isRequest {
